@@ -51,7 +51,10 @@ def facts_dir(features="", repo=REPO):
         except OSError:
             pass
         return d, True
-    lock = open(os.path.join(base, ".lock"), "w")
+    # one extraction at a time per cargo target directory (cargo would serialise them anyway); runs that were given
+    # their own AXV_TARGET_DIR extract in parallel
+    tgt = os.environ.get("AXV_TARGET_DIR", "")
+    lock = open(os.path.join(base, ".lock" + ("-" + hashlib.sha1(tgt.encode()).hexdigest()[:10] if tgt else "")), "w")
     fcntl.flock(lock, fcntl.LOCK_EX)
     try:
         if os.path.exists(ok):
